@@ -273,6 +273,22 @@ Linked(doc, m) ==
   /\ \A g \in DOMAIN m.groups : \A k \in DOMAIN m.groups[g].items : m.groups[g].items[k] \in DOMAIN m.tables
 
 (***************************************************************************)
+(* C14: comments are inert -- a model with every comment attribute blanked *)
+(***************************************************************************)
+MaskComments(m) ==
+  IF m.kind # "db" THEN m
+  ELSE [m EXCEPT
+         !.tables = [i \in DOMAIN @ |->
+                      [@[i] EXCEPT !.comment = "",
+                                   !.cols = [c \in DOMAIN @ |-> [@[c] EXCEPT !.comment = ""]],
+                                   !.idxs = [x \in DOMAIN @ |-> [@[x] EXCEPT !.comment = ""]]]],
+         !.enums = [i \in DOMAIN @ |->
+                      [@[i] EXCEPT !.comment = "", !.items = [c \in DOMAIN @ |-> [@[c] EXCEPT !.comment = ""]]]],
+         !.refs = [i \in DOMAIN @ |-> [@[i] EXCEPT !.comment = ""]],
+         !.groups = [i \in DOMAIN @ |-> [@[i] EXCEPT !.comment = ""]],
+         !.project.comment = ""]
+
+(***************************************************************************)
 (* Queries over the model (C05): what get_refs and the SQL key-holder rule *)
 (* must return, as positions in m.refs                                     *)
 (***************************************************************************)
